@@ -11,9 +11,7 @@ NOT_APPLICABLE = {
  "C19": "Differential against a reference emulator that is not present; no machine-readable ISA specification in the sandbox.",
  "C20": "Agreement of three JIT back ends (LLVM cannot even run: no llvmlite) through generated C, a C extension and CPython; whole-system, cross-language.",
  "C22": "Self-modifying-code history property spanning vm_mngr.c write tracking, the C execution loop and Python invalidation; not a single-call or single-structure property.",
- "C23": "Breakpoint history property over the emulation loop (Python + C + translated code).",
  "C41": "Dynamic symbolic execution of x86 programs under a jitter with a solver in the loop; whole-system across Python, C and z3.",
- "C49": "Faulting-instruction atomicity is a property of generated C/LLVM/Python block code and the C execution loop across back ends; no single function contract carries it.",
 }
 
 NOT_BUILT = {
